@@ -136,7 +136,7 @@ def run(case):
         STATS.cls("style_" + case["style"])
         STATS.cls("console_not_writable", bool(case.get("stderrFull")))
         nontrivial = len(pre) >= 1
-        STATS.note_case({k: case[k] for k in ("style", "sink", "L", "compress", "threads", "fatalThread", "fatalVia", "busy", "slow", "siblings", "fatalSize", "app")} | {"old": case.get("old", 0), "netFile": bool(case.get("netFile")), "stderrFull": bool(case.get("stderrFull"))} | {"npre": len(pre), "sizes": sorted(set(sizes))[:6]}, nontrivial)
+        STATS.note_case({k: case[k] for k in ("style", "sink", "L", "compress", "threads", "fatalThread", "fatalVia", "busy", "slow", "siblings", "fatalSize", "app")} | {"old": case.get("old", 0), "netFile": bool(case.get("netFile")), "stderrFull": bool(case.get("stderrFull")), "installFirst": bool(case.get("installFirst")), "extraFile": bool(case.get("extraFile"))} | {"npre": len(pre), "sizes": sorted(set(sizes))[:6]}, nontrivial)
         # oracle
         last_pre = -1
         per_thread_last = {}
@@ -180,6 +180,30 @@ def run(case):
                     return "net.log: messages of thread %d out of order" % t
                 lastn[t] = got[0]
             STATS.cls("per_category_file_not_reached_by_the_fatal_message", nnet > 0)
+        if case.get("extraFile"):
+            # the file sink added after the configuration proper: every preceding message and the fatal one, once, per thread in order
+            xp = os.path.join(work, "extra.log")
+            xdata = open(xp, "rb").read() if os.path.exists(xp) else b""
+            xpos = {}
+            for i, l in enumerate(xdata.split(b"\n")):
+                m = re.search(rb"(m\d+|FATAL|busy\d+-\d+|slow):[a-z0-9]*;end$", l)
+                if m:
+                    xpos.setdefault(m.group(0), []).append(i)
+                elif l.strip():
+                    return "extra.log holds a line that is no whole record: %r" % l[:120]
+            lastx = {}
+            for idx, (t, size) in enumerate(pre):
+                got = xpos.get(body("m%d" % idx, size), [])
+                if len(got) != 1:
+                    return "message m%d appears %d times in extra.log (a file sink added with the fluent API after the configuration was complete) after the process died, expected once; the file holds %d lines, fatal line present: %s" % (
+                        idx, len(got), len(xpos), bool(xpos.get(body("FATAL", case["fatalSize"]))))
+                if got[0] <= lastx.get(t, -1):
+                    return "extra.log: messages of thread %d out of order" % t
+                lastx[t] = got[0]
+            if len(xpos.get(body("FATAL", case["fatalSize"]), [])) != 1:
+                return "the fatal message appears %d times in extra.log (a file sink added with the fluent API after the configuration was complete), expected once; all %d preceding messages present" % (len(xpos.get(body("FATAL", case["fatalSize"]), [])), len(pre))
+            STATS.cls("file_sink_added_after_the_configuration", True)
+        STATS.cls("handler_installed_before_the_pipeline_was_filled", bool(case.get("installFirst")) and case["style"] in ("fluent", "nested"))
         return ""
     finally:
         shutil.rmtree(work, ignore_errors=True)
@@ -228,6 +252,8 @@ def strategy():
             siblings=draw(st.integers(1, 3)) if style == "nested" else 0,
             fatalSize=draw(st.sampled_from([0, 10, 200, BUF + 5])),
             app=draw(st.booleans()),
+            installFirst=draw(st.sampled_from([False, False, True])) if style in ("fluent", "nested") else False,
+            extraFile=draw(st.sampled_from([False, False, True])),
         )
 
     return scen()
